@@ -6,6 +6,8 @@ import (
 	"bytes"
 	"encoding/binary"
 	"fmt"
+	"io"
+	"runtime/debug"
 	"strconv"
 	"strings"
 	"testing/fstest"
@@ -38,9 +40,18 @@ func init() {
 			for i := 0; i < c08Shards; i++ {
 				u = append(u, "mut#"+strconv.Itoa(i))
 			}
+			if tier == "thorough" {
+				u = append(u, "beyond-4GiB")
+			}
 			return append(u, "large-entry")
 		},
 		Run: c08Run,
+		MemKBUnit: func(unit string) int {
+			if unit == "beyond-4GiB" {
+				return 24 << 20 // 24 GiB of address space: the decoder keeps everything it reads
+			}
+			return 0
+		},
 		Bound: func(tier string) map[string]any {
 			me, pairs := c08Bound(tier)
 			return map[string]any{"seed_max_lists": 2, "seed_max_entries": me, "field_alphabet": "0,1,15,16,17,27,28,29,31,32,44,47,48,49,75,76,77,exact+-1,remaining+-1,2^31-1,2^31,2^32-1", "pairs": pairs}
@@ -273,7 +284,95 @@ func c08Large(c *hx.Ctx, tier string) {
 	c.Sample(map[string]any{"class": "large entry", "entry_bytes": []int{1<<20 + 4096, 3 << 19}, "list_boundaries_at_powers_of_two_up_to": top})
 }
 
+// c08Synthetic serves a database that is too large to hold: list headers and entry owners are
+// real bytes, entry data is a constant fill.
+type c08Synthetic struct {
+	segs []c08Seg
+	pos  int64
+}
+
+type c08Seg struct {
+	hdr  []byte // real bytes
+	fill int64  // followed by this many 0x6b bytes
+}
+
+func (s *c08Synthetic) Read(p []byte) (int, error) {
+	off := s.pos
+	for _, g := range s.segs {
+		total := int64(len(g.hdr)) + g.fill
+		if off >= total {
+			off -= total
+			continue
+		}
+		n := 0
+		if off < int64(len(g.hdr)) {
+			n = copy(p, g.hdr[off:])
+		} else {
+			left := total - off
+			n = len(p)
+			if int64(n) > left {
+				n = int(left)
+			}
+			for i := 0; i < n; i++ {
+				p[i] = 0x6b
+			}
+		}
+		s.pos += int64(n)
+		return n, nil
+	}
+	return 0, io.EOF
+}
+
+// c08Beyond4G: a single list is limited to 32 bits, a database is not. Two X.509 lists whose
+// combined length is 2^32-1, 2^32 and 2^32+1 bytes, followed by a SHA-256 list: all three lists
+// must come back (or an error), never a shorter database.
+func c08Beyond4G(c *hx.Ctx) {
+	for _, total := range []int64{1<<32 - 1, 1 << 32, 1<<32 + 1} {
+		if !c.Next() {
+			continue
+		}
+		c.Tick()
+		l1 := int64(1<<31 + 12345)
+		l2 := total - l1
+		mkHdr := func(l int64, owner refesl.GUID) []byte {
+			b := append([]byte{}, refesl.X509[:]...)
+			b = binary.LittleEndian.AppendUint32(b, uint32(l))
+			b = binary.LittleEndian.AppendUint32(b, 0)
+			b = binary.LittleEndian.AppendUint32(b, uint32(l-28))
+			return append(b, owner[:]...)
+		}
+		tail := refesl.Encode([]refesl.List{refesl.Mk(refesl.SHA256, 48, refesl.Entry{Owner: ownerA, Data: fill(32, 9)})})
+		src := &c08Synthetic{segs: []c08Seg{{mkHdr(l1, ownerA), l1 - 44}, {mkHdr(l2, ownerB), l2 - 44}, {tail, 0}}}
+		var db signature.SignatureDatabase
+		var err error
+		pn := hx.Try(func() { db, err = signature.ReadSignatureDatabase(src) })
+		c.Tick()
+		d := map[string]any{"first_two_lists_bytes": total, "error": fmt.Sprint(err)}
+		switch {
+		case pn != nil:
+			c.Outcome("panic")
+			c.Violation("C08 decoding ends in "+pn.String()+" for a database larger than 4 GiB", d)
+		case err != nil:
+			c.Outcome("library-rejects-wellformed(not judged here)")
+		case len(db) != 3 || len(db[0].Signatures) != 1 || int64(len(db[0].Signatures[0].Data)) != l1-44 || len(db[1].Signatures) != 1 || int64(len(db[1].Signatures[0].Data)) != l2-44 ||
+			len(db[2].Signatures) != 1 || !bytes.Equal(db[2].Signatures[0].Data, fill(32, 9)):
+			c.Outcome("misread")
+			d["lists_returned"] = len(db)
+			c.Violation("C08 input (well-formed database larger than 4 GiB with a list boundary at 2^32 or next to it) decoded to a shorter or different database with nil error", d)
+		default:
+			c.Outcome("both-accept-equal")
+			c.Nontrivial([]byte(fmt.Sprint("beyond4g", total)))
+		}
+		db = nil
+		debug.FreeOSMemory()
+	}
+}
+
 func c08Run(c *hx.Ctx, tier, unit string) {
+	if unit == "beyond-4GiB" {
+		c08Beyond4G(c)
+		return
+	}
 	if unit == "large-entry" {
 		c08Large(c, tier)
 		return
